@@ -136,6 +136,23 @@ func HeldLocks(st *State) []string {
 	return out
 }
 
+// MayHeldLocks lists the lock ids that are held on at least one path (exclusive or shared).
+func MayHeldLocks(st *State) []string {
+	seen := map[string]bool{}
+	var out []string
+	if st == nil {
+		return out
+	}
+	for k, v := range st.F {
+		if v.Max >= 1 && (strings.HasPrefix(k, "L:") || strings.HasPrefix(k, "R:")) && !seen[k[2:]] {
+			seen[k[2:]] = true
+			out = append(out, k[2:])
+		}
+	}
+	sort.Strings(out)
+	return out
+}
+
 // SyncLitCallee is the frozen list of callees that invoke a function-literal argument
 // synchronously before returning (so the literal inherits the caller's lock set).
 func SyncLitCallee(fn *types.Func) bool {
